@@ -31,9 +31,18 @@ fn('dsplib::peakloc', U, sig='(const dsplib::arr_cmplx &, int, bool)', key='peak
             ('three_bin', 'Implies(Or(cyclic, And(idx != 0, idx != x.len - 1)), result == I - ((yr - yl) / (2 * yk - yl - yr)).re)')])
 
 # ---------------------------------------------------------------------------------------------------
-fn('dsplib::argmax', 'lib/math.cpp', sig='int (const dsplib::arr_cmplx &)', key='argmax(cmplx)', serves=['C18'], trusted=True, pure=True,
-   requires=[('nonempty', 'arr.len >= 1')], ensures=[('range', 'And(0 <= result, result < arr.len)')],
-   notes='assumed: index of a maximal element under cmplx_t::operator< (std::max_element over a user-defined order is not modelled)')
+A2 = lambda i: '(arr[%s].re * arr[%s].re + arr[%s].im * arr[%s].im)' % (i, i, i, i)
+for nm, cmpn, cmps in (('argmax', '<=', '<'), ('argmin', '>=', '>')):
+    fn('dsplib::' + nm, 'lib/math.cpp', sig='int (const dsplib::arr_cmplx &)', key=nm + '(cmplx)', serves=['C18', 'C17', 'C05'], pure=True,
+       requires=[('nonempty', 'arr.len >= 1')], throws='False',
+       ensures=[('range', 'And(0 <= result, result < arr.len)'),
+                ('first_extremum_of_magnitude', 'And(forall(lambda k: Implies(And(0 <= k, k < arr.len), %s %s %s)), forall(lambda k: Implies(And(0 <= k, k < result), %s %s %s)))'
+                 % (A2('k'), cmpn, A2('result'), A2('k'), cmps, A2('result')))])
+for nm, cmpn in (('max', '<='), ('min', '>=')):
+    fn('dsplib::' + nm, 'lib/math.cpp', sig='dsplib::cmplx_t (const dsplib::arr_cmplx &)', key=nm + '(cmplx)', serves=['C17', 'C05'], pure=True,
+       requires=[('nonempty', 'arr.len >= 1')], throws='False',
+       ensures=[('is_element', 'exists(lambda j: And(0 <= j, j < arr.len, arr[j].re == result.re, arr[j].im == result.im))'),
+                ('extremal_magnitude', 'forall(lambda k: Implies(And(0 <= k, k < arr.len), %s %s result.re * result.re + result.im * result.im))' % (A2('k'), cmpn))])
 
 # gccphat: lag unwrapping of the interpolated peak, times 1/fs. pk is the ghost copy of what peakloc returned
 G = 'lib/gccphat.cpp'
